@@ -204,6 +204,8 @@ def h_offer_answer(ctx, noffer, nanswer, data, policies=(0, 0), followup=None):
             tb.append(b.addTransceiver(kind, direction=d))
         if noffer == 0 and not data:
             return
+        if nanswer and ctx.choice("b_probes_an_offer", [False, True]):
+            run(b.createOffer())  # created (numbering its sections provisionally) but never applied
         offer = run(a.createOffer())
         run(a.setLocalDescription(offer))
         run(b.setRemoteDescription(a.localDescription))
